@@ -62,7 +62,7 @@ class ReleaseRequest(AbstractAcseApdu):
         # Decode the AARQ  data
         object_dict = dict()
         # use the data in tags to go through the bytes and create objects.
-        while True:
+        while len(rlrq_data) > 0:
             object_tag = rlrq_data.pop(0)
             object_desc = ReleaseRequest.PARSE_TAGS.get(object_tag, None)
             if object_desc is None:
